@@ -21,6 +21,7 @@ Record lawful {C} (P : policy C) (good : C -> Prop) : Prop := {
   L_good_put : forall c k v, good c -> good (cput P c k v);
   L_good_clear : forall c, good c -> good (cclear P c);
   L_some : forall c k, good c -> cmem P c k = true -> fst (cget P c k) <> None;
+  L_get_mem : forall c k v, good c -> fst (cget P c k) = Some v -> cmem P c k = true;
   L_get : forall c k k' v, good c -> lookup P (snd (cget P c k)) k' = Some v -> lookup P c k' = Some v;
   L_put : forall c k v k' v', good c -> lookup P (cput P c k v) k' = Some v' -> (k' = k /\ v' = v) \/ lookup P c k' = Some v';
   L_clear : forall c k, good c -> lookup P (cclear P c) k = None
